@@ -160,9 +160,15 @@ def hostile_bytes(item, ser, rng, seq, base="invoke"):
         return L.invoke_msg(obj, m, list(args), kwargs, flags=flags, ser=ser, seq=seq)
     close = False
     if item == "garbage":
-        n = rng.choice([1, 7, 40, 41, 200])
+        n = rng.choice([1, 7, 40, 41, 200, 12, 39])
         data = bytes(rng.randrange(256) for _ in range(n))
         close = n < 40           # less than a header: a partial message, so it ends with a disconnect
+        if n in (12, 39):
+            # ... or it does not: something that is plainly not this protocol (the first bytes say so) and shorter than a header,
+            # from a peer that then just waits - it is turned away as it is, nobody waits for the rest of a header
+            data = rng.choice([b"GET / HTTP/1.0\r\n\r\n", b"SSH-2.0-OpenSSH_9.2\r\n"])[:n] + bytes(max(0, n - 18))
+            data = data[:n]
+            close = False
     elif item == "bad_version":
         data = L.patch(req, 4, "!H", rng.choice([0, 501, 503, 0xffff]))
     elif item == "bad_magic":
